@@ -171,7 +171,7 @@ class World:
         if isinstance(v, str):
             return v.replace(self.root, "{ROOT}")
         if isinstance(v, bytes):
-            return v.decode("utf-8", "surrogateescape").replace(self.root, "{ROOT}")
+            return v.decode("utf-8", "replace").replace(self.root, "{ROOT}")
         if isinstance(v, (list, tuple)):
             return [self._rel(x) for x in v]
         if isinstance(v, dict):
@@ -220,7 +220,11 @@ class World:
 
     def write_bytes(self, f, data, repo=None):
         p = self.path(f, repo)
-        self.rec.append(dict(k="write", f=f, repo=self._rel(repo) if repo else None, data=data.decode("utf-8", "surrogateescape")))
+        try:
+            self.rec.append(dict(k="write", f=f, repo=self._rel(repo) if repo else None, data=data.decode("utf-8")))
+        except UnicodeDecodeError:
+            import base64
+            self.rec.append(dict(k="write", f=f, repo=self._rel(repo) if repo else None, b64=base64.b64encode(data).decode()))
         os.makedirs(os.path.dirname(p), exist_ok=True)
         with open(p, "wb") as fh:
             fh.write(data)
